@@ -56,6 +56,9 @@ RECURSIVE Times(_, _)
 Times(t, n) == IF n = 0 THEN <<>> ELSE t \o Times(t, n - 1)
 
 \* a yank inserts the kill-ring head at point, n >= 1 times for a numeric argument n
+\* (maxn: C16 does not bound n - the library prefixes an argument with the digits of an earlier argument that the
+\*  command it was given to did not use, e.g. `3x` on an empty line then `2P` repeats 32 times: an observation about
+\*  numeric arguments, outside the listed properties, so the C16 configuration leaves n unbounded)
 YankContract(pre, post, maxn) ==
   IF pre.kill = <<>> THEN post.line = pre.line
   ELSE LET d == Len(post.line) - Len(pre.line)
